@@ -235,19 +235,53 @@ def run(ctx, res):
     out = coqrun.prove("C07", PRELUDE + "From GettsimModel Require Import Corr.\n", obls, shards=len(obls), timeout=1700)
     res.obligations += out
     rnd = ctx.rng("c07")
-    dates = u5_dates(ctx.tier, rules["config"]["date_classes"], rnd)
-    r = compare_env(dates, ctx.build.get("hash"))
+    cls = sorted(rules["config"]["date_classes"])
+    # model == implementation on the first day of (quick: 60 sampled, thorough: all) date classes ...
+    starts = cls if ctx.tier == "thorough" else sorted(rnd.sample(cls, 60))
+    r = compare_env(starts, ctx.build.get("hash"))
     res.evaluations += r["dates"]
     res.distinct += r["dates"]
     res.extra["u5"] = dict(dates=r["dates"], leaves_compared=r["leaves"], both_raise=r["both_raise"], differences=len(r["diffs"]),
-                           first=impl.iso(dates[0]), last=impl.iso(dates[-1]))
-    res.samples += [dict(unit="U5", date=impl.iso(o)) for o in dates[:3]]
+                           first=impl.iso(starts[0]), last=impl.iso(starts[-1]))
+    res.samples += [dict(unit="U5", date=impl.iso(o)) for o in starts[:3]]
+    # ... and the implementation itself is constant within every class: last day, leap days, random days vs first day
+    import bisect
+
+    probe = set(c - 1 for c in cls[1:])
+    for y in range(1980, int(impl.iso(cls[-1])[:4]) + 1):
+        if (y % 4 == 0 and y % 100 != 0) or y % 400 == 0:
+            probe.update([datetime.date(y, 2, 29).toordinal(), datetime.date(y, 3, 1).toordinal(), datetime.date(y, 6, 30).toordinal(), datetime.date(y, 12, 31).toordinal()])
+    probe.update(rnd.randrange(cls[0], cls[-1]) for _ in range(20 if ctx.tier == "quick" else 300))
+    probe = sorted(d for d in probe if cls[0] <= d <= cls[-1])
+    envs = impl.all_env_canon(sorted(set(probe) | set(cls)), ctx.build.get("hash"))
+    within = 0
+    for dday in probe:
+        c = cls[bisect.bisect_right(cls, dday) - 1]
+        if c == dday:
+            continue
+        (pa, fa), (pb, fb) = envs[c], envs[dday]
+        within += 1
+        if isinstance(pa, tuple) or isinstance(pb, tuple):
+            if isinstance(pa, tuple) != isinstance(pb, tuple):
+                res.add_violation(f"within-class:raises:{impl.iso(dday)}", f"set_up_policy_environment works on {impl.iso(c)} xor {impl.iso(dday)} (same date class)",
+                                  dict(kind="within-class", class_start=impl.iso(c), day=impl.iso(dday)), True)
+            continue
+        a = {g: {k: v for k, v in d_.items() if k != "datum"} for g, d_ in pa.items()}
+        b = {g: {k: v for k, v in d_.items() if k != "datum"} for g, d_ in pb.items()}
+        if a != b or fa != fb:
+            where = next((f"{g}.{k}" for g in a for k in set(a[g]) | set(b.get(g, {})) if a[g].get(k) != b.get(g, {}).get(k)), "functions")
+            res.add_violation(f"within-class:{where}", f"the environment of {impl.iso(dday)} differs from that of {impl.iso(c)} although no parameter or function changes in between: {where} "
+                              f"({str(a.get(where.split('.')[0], {}).get(where.split('.')[-1]))[:80]} vs {str(b.get(where.split('.')[0], {}).get(where.split('.')[-1]))[:80]})",
+                              dict(kind="within-class", class_start=impl.iso(c), day=impl.iso(dday), where=where), True)
+    res.evaluations += within
+    res.extra["within_class_days_compared_on_implementation"] = within
     n, bad = impl_property_probe(rules, rnd, 12 if ctx.tier == "quick" else 80)
     res.evaluations += n
     res.extra["direct_probe_checks"] = n
     res.rule = ("U5: set_up_policy_environment(d) of the implementation vs params_at/functions_at of the model on the regenerated "
-                "YAML/registry, every leaf compared (floats 1e-9), for first days of 40 sampled date classes, sampled last days, leap "
-                "days and random days (thorough: every first/last/second day, every 29 Feb / 1 Mar, 200 random days). Direct probe: "
+                "YAML/registry, every leaf compared (floats 1e-9), on the first day of 60 sampled date classes (thorough: all). Constancy of the "
+                "IMPLEMENTATION within classes: the LAST day of every class, every 29 Feb / 1 Mar / 30 Jun / 31 Dec of leap years and random "
+                "days vs the first day of their class (everything but the date stamp must be equal). Direct probe: "
                 "on random days inside classes the implementation's environment equals that of the class start, scalar parameters "
                 "equal the latest YAML entry, active functions lie inside their validity interval. distinct = distinct dates.")
     for b in bad[:5]:
